@@ -147,6 +147,18 @@ class Engine:
             self.funcs.setdefault(full, []).extend(fl)
             for f in fl:
                 f.crate = crate
+        # impls nested in function bodies are not in the rustdoc index: index them by the type of their receiver
+        self.sig_methods = getattr(self, 'sig_methods', {})
+        for name, fl in fs.items():
+            if '<impl at ' not in name or name.count('::{') or not name.split('>::')[-1].isidentifier():
+                continue
+            for f in fl:
+                if not f.args:
+                    continue
+                t0 = f.args[0][1].lstrip('&').strip()
+                if t0.startswith('mut '): t0 = t0[4:]
+                tl = re.sub(r'<.*$', '', t0).split('::')[-1]
+                self.sig_methods.setdefault((crate, tl, name.split('>::')[-1]), []).append(f)
         roots = self.local_roots.setdefault(crate, set())
         for name in fs:
             if not name.startswith('<') and '::' in name:
@@ -1218,6 +1230,11 @@ class Engine:
                         for full, rec in lst:
                             for f in self.funcs[full]:
                                 if f not in out: out.append(f)
+            if not out and trl is not None and cur_crate:
+                # impl nested in a function body (no rustdoc entry): unique body with that receiver type and item name
+                cands = [f for f in getattr(self, 'sig_methods', {}).get((cur_crate, xl, item), []) if self.src.impls.get(impl_key(f.name)[0]) is None]
+                if len(cands) == 1:
+                    out = cands
             if trl is None and not out:
                 for (a, b, c), lst in self.impl_methods.items():
                     if a == xl and c == item:
@@ -1327,6 +1344,12 @@ class Engine:
                     sc += 3      # `Trait` without arguments: Rhs = Self
                 if xs in sig_ret:
                     sc += 1
+                else:
+                    # Self with other generic arguments inside the return type (`Result<&KeyId<A, K>, E>` for Self = `&KeyId<X, Y>`)
+                    nog = lambda t: re.sub(r'<[^<>]*>', '', re.sub(r'<[^<>]*>', '', re.sub(r'<[^<>]*>', '', t)))
+                    xb = nog(xs)
+                    if xb and re.search(r'(?<![\w&])' + re.escape(xb) + r'(?![\w])', re.sub(r'<[^<>]*>', '', re.sub(r'<[^<>]*>', '', sig_ret.replace('Result<', '', 1)))):
+                        sc += 1
             else:
                 sc = len(toks & set(re.findall(r'[A-Za-z_]\w*', ' '.join(sig_args) + ' ' + sig_ret)))
             if args is not None and len(sig_args) != len(args):
